@@ -122,6 +122,14 @@ def check(ctx, rep):
 
     flags = cancelling_flags(ctx)
     depth = max(ctx.depth, 6)
+    # a worker that stops serving while its executor is alive loses every future queued behind it (shared with C11)
+    from .c11 import looptop_rule
+    looptop_rule(ctx, rep)
+    # a derived future that reached its final state must also tell the futures chained onto it: every transition
+    # is followed by one dispatch of its callbacks (shared with C02)
+    from .c02 import trans_rule
+    P_ = roles.proto(ctx)
+    trans_rule(ctx, rep, [c for c in prog.subclasses(P_.fut, strict=True)], P_.dispatch, P_.lock)
 
     # ---- delegate callbacks of _Future subclasses: methods registered on a delegate by the class itself
     n = 0
@@ -161,26 +169,22 @@ def check(ctx, rep):
     rep.count("future classes x delegate callbacks", n, 6)
 
     # ---- RetryExecutor: callback registered by the executor; derived future is the job's future
-    rex = prog.cls("RetryExecutor")
-    cb = rex.methods.get("_delegate_callback")
-    rep.require(cb is not None, "RetryExecutor._delegate_callback not found")
+    RR = roles.retry_roles(ctx)
+    rex = RR.cls
+    cb = RR.layer.callback
     ps, it = ctx.paths(cb, rex, depth=depth)
+    DP = ("param", cb.params[1])
     n = 0
     for p in ps:
-        # the job found for this delegate
+        # the job found for this delegate: a record whose in-flight field was found equal to the completed future
         D = None
-        for e in p.events:
-            if e.kind == "call" and e.d["callee"] is not None and e.d["args"]:
-                a0 = e.d["args"][0]
-                if isinstance(a0, tuple) and a0[0] == "elem":
-                    D = ("attr", a0, "future")
-        for s in p.events:
-            for t in ([s.d[0]] if s.kind == "branch" else []):
-                for sub in subterms(t):
-                    if sub[0] == "attr" and sub[2] == "future" and isinstance(sub[1], tuple) and sub[1][0] == "elem":
-                        D = sub
+        for t, v, b_ in q.atoms(p):
+            if v is True and isinstance(t, tuple) and t[0] == "cmp" and t[1] in ("==", "is") and DP in (t[2], t[3]):
+                o = t[2] if t[3] == DP else t[3]
+                if isinstance(o, tuple) and o[0] == "attr" and o[2] == RR.inflight:
+                    D = ("attr", o[1], RR.future)
         sig = q.path_sig(p)
-        key = "RetryExecutor._delegate_callback %s" % _short(sig)
+        key = "RetryExecutor completion callback %s" % _short(sig)
         if D is None:
             # no job matched this delegate: nothing depends on it any more
             rep.ob("R-CB-TOTAL", key, p.status == "return", "no job found and the callback does not simply return", where_of(cb), trace_of(p))
@@ -191,7 +195,7 @@ def check(ctx, rep):
             continue
         why = classify(p, D, it, loops, flags, cb.name)
         rep.ob("R-CB-TOTAL", key, why is not None, "this exit of the retry callback neither resolves the job's future nor re-queues the job (delegate outcome: %s)" % _outcome(sig), where_of(cb), trace_of(p))
-    rep.require(n >= 4, "RetryExecutor._delegate_callback: too few paths with a job (%d)" % n)
+    rep.require(n >= 4, "RetryExecutor completion callback: too few paths with a job (%d)" % n)
 
     # ---- combinators
     for cname in ("Zipper", "OrOperation", "AndOperation"):
